@@ -1,4 +1,6 @@
 -- GENERATED
 import Driver.Proto
 import Driver.C04
+import Driver.C08
 import Driver.C14
+import Driver.C20
